@@ -101,7 +101,7 @@ def make_jobs(rnd, n, profile, modes=None, ext_crash_p=None, **extra):
     return jobs
 
 
-def standard_run(out, pid, profiles, monitor_names, nontrivial, rule, modes=None, quick_n=360, thorough_n=12000,
+def standard_run(out, pid, profiles, monitor_names, nontrivial, rule, modes=None, quick_n=360, thorough_n=30000,
                  skip_sig=None, extra_jobs=None, extra_corr=None):
     rnd = random.Random(out.seed + sum(map(ord, pid)))
     model = Model()
